@@ -95,6 +95,15 @@ CORPUS = [
     {"g": {"nodes": [0, 1], "di": [[0, 1]], "bi": []}, "outcomes": [[v(1), "m"]], "conditions": [[v(0, [(0, "m")]), "m"]]},
     # impossible outcome, possible condition
     {"g": {"nodes": [0, 1], "di": [[0, 1]], "bi": []}, "outcomes": [[v(0, [(0, "m")]), "p"]], "conditions": [[v(1), "m"]]},
+    # the exchange fragment (idcstar_sound_fragment_exchange): W -> X -> Y, P(y | x); two outcomes below X; no outcome below X
+    {"g": {"nodes": [0, 1, 2], "di": [[2, 0], [0, 1]], "bi": []}, "outcomes": [[v(1), "m"]], "conditions": [[v(0), "m"]]},
+    {"g": {"nodes": [0, 1, 2], "di": [[0, 1], [1, 2]], "bi": []}, "outcomes": [[v(1), "m"], [v(2), "m"]], "conditions": [[v(0), "m"]]},
+    {"g": {"nodes": [0, 1, 2, 3], "di": [[2, 0], [3, 1]], "bi": []}, "outcomes": [[v(1), "m"]], "conditions": [[v(0), "m"]]},
+    # termination with shared names (idcstar_terminates_shared_names): the re-association ADDS a condition at the second level
+    # (A->D, B->D, C->D, B->Y, C->Y; outcomes D_b, D_c, Y_b; conditions A, Y_c)
+    {"g": {"nodes": [0, 1, 2, 3, 4], "di": [[0, 3], [1, 3], [2, 3], [1, 4], [2, 4]], "bi": []},
+     "outcomes": [[v(3, [(1, "m")]), "m"], [v(3, [(2, "m")]), "m"], [v(4, [(1, "m")]), "m"]],
+     "conditions": [[v(0), "m"], [v(4, [(2, "m")]), "m"]]},
 ]
 
 
